@@ -47,7 +47,20 @@ def _user_classes():
     return _USER
 
 
-def make(name):
+_REUSED = {}
+
+
+def make(name, reuse=False):
+    """A pass object; with reuse=True ONE object per pass and worker process serves many circuits (all universe
+    circuits share their labels), as a long-lived pipeline object of a user would."""
+    if reuse:
+        if name not in _REUSED:
+            _REUSED[name] = make(name)
+        return _REUSED[name]
+    return _make(name)
+
+
+def _make(name):
     from cirbo.minimization.simplification import (
         MergeDuplicateGates, MergeEquivalentGates, MergeUnaryOperators, RemoveRedundantGates)
 
@@ -62,7 +75,7 @@ def make(name):
     }[name]()
 
 
-def run_pass(name, c, leaves=None, shape=None):
+def run_pass(name, c, leaves=None, shape=None, reuse=False):
     from cirbo.core.circuit.transformer import Transformer, TransformerComposition
     from cirbo.minimization.simplification import cleanup
 
@@ -71,8 +84,8 @@ def run_pass(name, c, leaves=None, shape=None):
     if name == 'cleanup_heavy':
         return cleanup(c, use_heavy=True)
     if name != 'pipeline':
-        return make(name).transform(c)
-    ts = [make(x) for x in leaves]
+        return make(name, reuse).transform(c)
+    ts = [make(x, reuse) for x in leaves]
     if shape == 'pipe':
         if len(ts) == 1:
             return ts[0].transform(c)
@@ -117,7 +130,7 @@ def record_pass(src, prop):
             'shape': src.get('shape', name), 'src': src,
             'removal': name == 'RRGI' or 'RRGI' in (src.get('leaves') or [])}
     try:
-        res = run_pass(name, c, src.get('leaves'), src.get('shape'))
+        res = run_pass(name, c, src.get('leaves'), src.get('shape'), reuse=src.get('vs', 0) % 2 == 1)
         case['post'] = project(res)
         case['same_object'] = res is c
     except Exception as e:
